@@ -3,7 +3,8 @@
    bodies) -> rendering with an explicit context.  Everything Nunavut did not touch is a parameter: the non-root lexer states
    (`inner`), parse_tuple, parse_statement (which receives the recursive subparse for the bodies), expression evaluation, the
    text conversion of printed values (any Python value: `text` = soft_unicode / to_string) and statement rendering.
-   `is_marker` is the only switch: token_is_marker for the bundled parser, (fun _ => false) for the upstream one. *)
+   `mark_v`/`mark_b` are the only switch: the bundled parser's marker decision (JinjaScan.code_marker with the environment's start
+   strings), `never` for the upstream one. *)
 From Verif Require Export JinjaScan JinjaRx.
 Open Scope N_scope.
 
@@ -18,7 +19,13 @@ Definition wrap_drop (k : str) : bool :=
   str_in k [K_WS; k_comment; k_comment_end; n_comment; n_raw; k_raw_end;
             [108; 105; 110; 101; 99; 111; 109; 109; 101; 110; 116]; [108; 105; 110; 101; 99; 111; 109; 109; 101; 110; 116; 95; 98; 101; 103; 105; 110];
             [108; 105; 110; 101; 99; 111; 109; 109; 101; 110; 116; 95; 101; 110; 100]].
-Definition wrap (toks : list xtok) : list xtok := filter (fun t => negb (wrap_drop (fst t))) toks.
+Definition K_LSBEGIN : str := [108; 105; 110; 101; 115; 116; 97; 116; 101; 109; 101; 110; 116; 95; 98; 101; 103; 105; 110].
+Definition K_LSEND : str := [108; 105; 110; 101; 115; 116; 97; 116; 101; 109; 101; 110; 116; 95; 101; 110; 100].
+Definition K_BLOCKEND0 : str := [98; 108; 111; 99; 107; 95; 101; 110; 100].
+(* ... and line statements become ordinary blocks *)
+Definition wrap_rename (t : xtok) : xtok :=
+  if str_eqb (fst t) K_LSBEGIN then (n_block, snd t) else if str_eqb (fst t) K_LSEND then (K_BLOCKEND0, snd t) else t.
+Definition wrap (toks : list xtok) : list xtok := map wrap_rename (filter (fun t => negb (wrap_drop (fst t))) toks).
 
 Inductive pnode (E St : Type) :=
 | PData (d : str)                                    (* TemplateData *)
@@ -29,7 +36,8 @@ Arguments PData {E St}. Arguments PPrint {E St}. Arguments PStmt {E St}. Argumen
 
 Section Pipe.
   Variables E St C V : Type.
-  Variable is_marker : str -> bool.
+  (* the parser's marker decision for a variable_begin / block_begin token value: Some prefix = auto-indent (upstream: never) *)
+  Variables mark_v mark_b : str -> option str.
   Variable parse_tuple : list xtok -> option (E * list xtok).
   Variable parse_statement : (list str -> list xtok -> option (list (pnode E St) * list xtok)) -> list xtok -> option (list St * list xtok).
 
@@ -49,7 +57,7 @@ Section Pipe.
               match parse_tuple rest with
               | Some (e, (k2, _) :: rest2) =>
                   if str_eqb k2 K_VAREND then
-                    let node := if is_marker v then NFilter e autoindent_filter_name (autoindent_prefix v) else NPlain e in
+                    let node := subparse_variable (mark_v v) e in
                     match subparse f ends rest2 with Some (ns, r) => Some (PPrint node :: ns, r) | None => None end
                   else None
               | _ => None
@@ -62,7 +70,7 @@ Section Pipe.
                     match parse_statement (subparse f) rest with
                     | Some (stmts, (k2, _) :: rest2) =>
                         if str_eqb k2 K_BLOCKEND then
-                          let ns1 := if is_marker v then [PFilterBlock stmts autoindent_filter_name (autoindent_prefix v)] else map PStmt stmts in
+                          let ns1 := match mark_b v with Some p => [PFilterBlock stmts autoindent_filter_name p] | None => map PStmt stmts end in
                           match subparse f ends rest2 with Some (ns, r) => Some (ns1 ++ ns, r) | None => None end
                         else None
                     | _ => None
@@ -132,5 +140,8 @@ Section Pipe.
 End Pipe.
 
 Definition is_begin_kind (k : str) : bool := str_eqb k n_variable || str_eqb k n_block.
-Definition no_marker_tokens (toks : list xtok) : bool :=
-  forallb (fun t => negb (is_begin_kind (fst t) && token_is_marker (snd t))) toks.
+Definition is_none {A} (o : option A) : bool := match o with None => true | Some _ => false end.
+(* no begin token is taken for a marker by the parser *)
+Definition no_marker_tokens (mv mb : str -> option str) (toks : list xtok) : bool :=
+  forallb (fun t => (negb (str_eqb (fst t) n_variable) || is_none (mv (snd t))) && (negb (str_eqb (fst t) n_block) || is_none (mb (snd t)))) toks.
+Definition never : str -> option str := fun _ => None.
